@@ -499,14 +499,46 @@ def _corpus() -> list[tuple[dict[str, Any], list[list[Any]], int, int]]:
     return out
 
 
+def _exhaustive_small(ctx: Any) -> int:
+    """Every history of length 5 over {tick / send, release 0, release 1} on a 3-batch producer and a 3-step exchange whose
+    batches all request the same number of bytes (so freed offsets are handed out again at once), for two segment sizes."""
+    import itertools
+
+    S = lambda act: {"logs": [], "act": act, "post": []}  # noqa: E731
+    desc = {"methods": [
+        {"name": "p", "kind": "producer", "okind": "int", "header": False, "init_logs": [], "init": "ok",
+         "steps": [S({"emit": {"id": 501 + k, "rows": 4}}) for k in range(4)]},
+        {"name": "x", "kind": "exchange", "okind": "int", "ikind": "int", "early": False, "header": False, "init_logs": [], "init": "ok",
+         "steps": [S({"emit": {"id": 511 + k, "rows": 4}}) for k in range(4)]},
+    ]}
+    n = 0
+    for meth in ("p", "x"):
+        for seq in itertools.product("T01", repeat=5):
+            script: list[list[Any]] = [["open", meth, 1]]
+            k = 0
+            for ch in seq:
+                if ch == "T":
+                    script.append(["tick"] if meth == "p" else ["send", 600 + k, 4, "int"])
+                    k += 1
+                else:
+                    script.append(["release", int(ch)])
+            script.append(["close"])
+            for seg in (H + 3 * 4272, 1 << 20):
+                check_one(ctx, desc, script, 1, seg)
+                n += 1
+    return n
+
+
 def run(ctx: Any) -> None:
     rng = ctx.rng
+    if ctx.tier == "thorough":
+        ctx.note("exhaustive_small_histories", _exhaustive_small(ctx))
     corpus = _corpus()
     if ctx.tier != "thorough" and not ctx.deep:
         corpus = corpus[::2] + corpus[1:6:2]
     for desc, script, thr, seg in corpus:
         check_one(ctx, desc, script, thr, seg)
-    for _ in range(ctx.budget(110, 3000)):
+    for _ in range(ctx.budget(110, 1800)):
         thr = rng.choice(THRS)
         ids = Ids()
         desc = gen_service(rng, ids, thr)
